@@ -1,3 +1,213 @@
-(* Suite "bookmarks": requests evaluated by the model for the correspondence check (stub). *)
-From Klog Require Import Base.Prelude Model.Show Model.Bookmarks.
-Definition suite_bookmarks (cmd : bytes) (args : list bytes) : option bytes := None.
+(* Suite "bookmarks" (C19) and the JSON codec requests shared with C20: requests evaluated by the model
+   for the correspondence check.
+
+   json-str <hex>            Go string -> literal written by the encoder -> decoded again
+   json-parse <hex>          JSON text -> token stream (or err)
+   json-print <hex>          JSON text -> parsed -> Encoder output, compact and indented (or err)
+   bm-path <hex>             filepath.Clean / IsAbs / Dir / Base and the hypotheses about Abs
+   bm-tojson <n> <p> ...     collection built by Set(NewBookmark(n, p)) -> ToJson
+   bm-fromjson <hex>         NewBookmarksCollectionFromJson
+   bm-history <T> <target>*T <op>*   a history of klog command lines on a scratch configuration folder
+     target  <relpathhex>:<v|i|m>      file below the working directory: valid klog file / invalid / missing;
+                                        the i-th target (from 0) holds one record of 3^i minutes
+     op      s:<pathhex>:<a|r>:<f|n>:<0|1>:<namehex>   bookmarks set [--force] PATH [NAME] (a = absolute path)
+             u:<namehex>  c  l  i:<p|d|f>:<namehex>     unset / clear --yes / list / info
+             r(:<n|a><hex>)*                            klog total ARGS (n = as is, a = made absolute)
+   The scratch directory is written /S; the working directory is /S/w. *)
+From Klog Require Import Base.Prelude Base.Utf8 Model.Show Model.Json Model.Bookmarks.
+Open Scope N_scope.
+
+Definition hx (s : bytes) : bytes := match s with [] => [45] | _ => hex_of_bytes s end.
+
+(* ---------- JSON ---------- *)
+
+Definition show_bytes_outcome (x : outcome bytes) : bytes :=
+  match x with
+  | Ok d => b!"ok " ++ hx d
+  | Err _ => b!"err"
+  | Crash _ => b!"crash"
+  end.
+
+Fixpoint json_tokens (v : json) : list bytes :=
+  match v with
+  | JNull => [b!"null"]
+  | JBool true => [b!"true"]
+  | JBool false => [b!"false"]
+  | JNum z => [110 :: dec z]
+  | JRaw l => [110 :: l]
+  | JStr s => [115 :: hx s]
+  | JArr l => [[91]] ++ flat_map json_tokens l ++ [[93]]
+  | JObj l => [[123]] ++ flat_map (fun kx => (115 :: hx (fst kx)) :: json_tokens (snd kx)) l ++ [[125]]
+  end.
+
+(* ---------- paths ---------- *)
+
+Definition cwd : bytes := b!"/S/w".
+Definition the_abs : bytes -> bytes := unix_abs cwd.
+
+(* ---------- histories ---------- *)
+
+Record target := { tg_path : bytes; tg_status : fstatus; tg_minutes : N }.
+
+Fixpoint parse_targets (toks : list bytes) (i : nat) : list target :=
+  match toks with
+  | [] => []
+  | t :: r =>
+    match split_on 58 t [] with
+    | [p; st] =>
+      {| tg_path := the_abs (arg_bytes p);
+         tg_status := (if bytes_eqb st b!"v" then FValid else if bytes_eqb st b!"i" then FInvalid else FMissing);
+         tg_minutes := 3 ^ N.of_nat i |} :: parse_targets r (S i)
+    | _ => parse_targets r (S i)
+    end
+  end.
+
+Fixpoint find_target (ts : list target) (p : bytes) : option target :=
+  match ts with
+  | [] => None
+  | t :: r => if bytes_eqb (tg_path t) p then Some t else find_target r p
+  end.
+
+Definition the_fstat (ts : list target) (p : bytes) : fstatus :=
+  match find_target ts p with Some t => tg_status t | None => FMissing end.
+
+Definition argv_path (mode rel : bytes) : bytes :=
+  kong_arg (if bytes_eqb mode b!"a" then cwd ++ [47] ++ rel else rel).
+
+Definition parse_resolve_arg (t : bytes) : bytes :=
+  match t with
+  | k :: h => argv_path [k] (arg_bytes h)
+  | [] => []
+  end.
+
+Definition parse_op (t : bytes) : option op :=
+  match split_on 58 t [] with
+  | [[115]; p; mode; force; _; name] =>
+    Some (OpSet (argv_path mode (arg_bytes p)) (kong_arg (arg_bytes name)) (bytes_eqb force b!"f"))
+  | [[117]; name] => Some (OpUnset (kong_arg (arg_bytes name)))
+  | [[99]] => Some OpClear
+  | [[108]] => Some OpList
+  | [[105]; k; name] =>
+    Some (OpInfo (kong_arg (arg_bytes name))
+                 (if bytes_eqb k b!"d" then IDir else if bytes_eqb k b!"f" then IFile else IPath))
+  | [114] :: args => Some (OpResolve (map parse_resolve_arg args))
+  | _ => None
+  end.
+
+Fixpoint parse_ops (toks : list bytes) : list op :=
+  match toks with
+  | [] => []
+  | t :: r => match parse_op t with Some o => o :: parse_ops r | None => parse_ops r end
+  end.
+
+(* the database file as an independent reader sees it: name=path pairs ordered by name *)
+Definition db_view (file : bytes) : bytes :=
+  match file with
+  | [] => [45]
+  | _ =>
+    match parse_json file with
+    | Ok (JArr l) =>
+      match decode_entries l with
+      | Some es =>
+        let pairs := flat_map (fun e => match re_name e, re_path e with
+                                         | Some n, Some p => [(n, p)]
+                                         | _, _ => [(b!"?", b!"?")]
+                                         end) es in
+        match pairs with
+        | [] => [45]
+        | _ => join [44] (map (fun np => hx (fst np) ++ [61] ++ hx (snd np)) (all pairs))
+        end
+      | None => [33]
+      end
+    | _ => [33]
+    end
+  end.
+
+Definition total_minutes (ts : list target) (stdout : bytes) : N :=
+  (* stdout of the model's resolve = the resolved files, each followed by NUL *)
+  fold_left (fun acc p => match find_target ts p with Some t => acc + tg_minutes t | None => acc end)
+            (filter (fun l => negb (bytes_eqb l [])) (split_on 0 stdout [])) 0.
+
+Definition show_step (ts : list target) (o : op) (sr : bytes * reply) : bytes :=
+  let view := db_view (fst sr) in
+  match snd sr with
+  | ROk out =>
+    match o with
+    | OpResolve _ => b!"0:" ++ dec (Z.of_N (total_minutes ts out)) ++ [58] ++ view
+    | _ => b!"0:" ++ hx out ++ [58] ++ view
+    end
+  | RFail (EOther n) => dec (Z.of_N n) ++ b!":-:" ++ view
+  | RFail _ => b!"?:-:" ++ view
+  | RPanic => b!"crash:-:" ++ view
+  end.
+
+Definition run_bm_history (args : list bytes) : bytes :=
+  match args with
+  | nt :: rest =>
+    let n := Z.to_nat (parse_int nt) in
+    let ts := parse_targets (firstn n rest) 0 in
+    let ops := parse_ops (skipn n rest) in
+    let tr := run_history the_abs (the_fstat ts) unix_dir unix_base ops [] in
+    words (map (fun x => show_step ts (fst x) (snd x)) (combine ops tr))
+  | [] => b!"?"
+  end.
+
+Fixpoint build_coll (args : list bytes) (c : coll) : coll :=
+  match args with
+  | n :: p :: r => build_coll r (set (new_name (arg_bytes n)) (arg_bytes p) c)
+  | _ => c
+  end.
+
+Definition show_coll (c : coll) : bytes :=
+  match c with
+  | [] => [45]
+  | _ => join [44] (map (fun np => hx (fst np) ++ [61] ++ hx (snd np)) (all c))
+  end.
+
+Definition suite_bookmarks (cmd : bytes) (args : list bytes) : option bytes :=
+  if bytes_eqb cmd b!"json-str" then
+    match args with
+    | [s] => let e := encode_string (arg_bytes s) in
+             Some (words [hx e; show_bytes_outcome (decode_string e)])
+    | _ => None
+    end
+  else if bytes_eqb cmd b!"json-parse" then
+    match args with
+    | [s] => Some (match parse_json (arg_bytes s) with
+                   | Ok v => words (b!"ok" :: json_tokens v)
+                   | Err _ => b!"err"
+                   | Crash _ => b!"crash"
+                   end)
+    | _ => None
+    end
+  else if bytes_eqb cmd b!"json-print" then
+    match args with
+    | [s] => Some (match parse_json (arg_bytes s) with
+                   | Ok v => words [b!"ok"; hx (encoder_output false v); hx (encoder_output true v)]
+                   | Err _ => b!"err"
+                   | Crash _ => b!"crash"
+                   end)
+    | _ => None
+    end
+  else if bytes_eqb cmd b!"bm-path" then
+    match args with
+    | [s] => let p := arg_bytes s in
+             let a := the_abs p in
+             Some (words [hx (unix_clean p); show_bool (is_abs p); hx (unix_dir p); hx (unix_base p);
+                          hx a; show_bool (is_abs a); show_bool (bytes_eqb (the_abs a) a);
+                          show_bool (negb (valid_utf8b p) || valid_utf8b a)])
+    | _ => None
+    end
+  else if bytes_eqb cmd b!"bm-tojson" then
+    Some (hx (to_json (build_coll args [])))
+  else if bytes_eqb cmd b!"bm-fromjson" then
+    match args with
+    | [s] => Some (match from_json the_abs (arg_bytes s) with
+                   | Ok c => b!"ok " ++ show_coll c
+                   | Err _ => b!"err"
+                   | Crash _ => b!"crash"
+                   end)
+    | _ => None
+    end
+  else if bytes_eqb cmd b!"bm-history" then Some (run_bm_history args)
+  else None.
